@@ -10,9 +10,14 @@ lams = []
 for e in (8, 12, 16, 20, 21, 22, 24, 27, 30, 34):
     lams += [(1, 2 ** e), (-1, 2 ** e), (3, 2 ** (e + 1))]
 lams += [(1, 8), (-3, 8), (5, 2), (-5, 1), (5, 1), (1, 3 * 2 ** 0 * 4)]
+# arguments in the immediate neighbourhood of 1 (where the transform passes through 0 and x^lambda - 1 cancels): every moderate
+# lambda and two tiny ones
+near = [(2 ** 14 + 1, 2 ** 14), (2 ** 14 - 1, 2 ** 14), (2 ** 17 + 1, 2 ** 17), (2 ** 15 + 3, 2 ** 15), (2 ** 15 - 3, 2 ** 15), (2 ** 20 - 1, 2 ** 20),
+        (2 ** 26 + 1, 2 ** 26), (1025, 1024), (1023, 1024), (2 ** 40 + 1, 2 ** 40)]
+lams_near = [(5, 1), (-5, 1), (7, 2), (-2, 1), (17, 4), (-15, 4), (1, 2), (3, 1), (2, 1), (-1, 1), (1, 2 ** 20), (-1, 2 ** 30)]
 with open(OUT, "w") as f:
-    for (xn, xd) in xs:
-        for (ln, ld) in lams:
+    for (xn, xd) in xs + near:
+        for (ln, ld) in (lams if (xn, xd) in xs else lams_near):
             if ld % 3 == 0: continue
             x, lam = mpf(xn) / xd, mpf(ln) / ld
             p = power(x, lam)
